@@ -8,7 +8,8 @@ import BioCantor.Driver.SpecChunk
 import BioCantor.Model.Chunk
 namespace BioCantor.Driver.Chunk
 open BioCantor BioCantor.Proto BioCantor.Model BioCantor.Model.Chunk
-open BioCantor.Driver.SpecChunk (Head pHead)
+open BioCantor.Driver.SpecChunk (Head pHead Mods pMods)
+open BioCantor.Spec.Chunk (Via Desc)
 open BioCantor.Driver.CDS (showLocs showS)
 
 /-- the chunk of the line: `letters[ws:we]`, reverse-complemented for a minus-strand chunk (done by the harness,
@@ -29,50 +30,138 @@ def showCell (r : R (List Char)) : String :=
   | .ok s => "s:" ++ String.ofList s
   | .error _ => "x"
 
-def twins (h : Head) : R (List Node × List Node × Chunk) := do
-  let ch ← chunkOf h
-  let (a, b) ← buildTwins h.desc h.letters ch
-  pure (a, b, ch)
+/-- the chunk `[ws, we)` on strand `wst` of the chromosome `letters` -/
+def chunkAt (letters : List Char) (w : Blk) (wst : Strand) : R Chunk := do
+  let piece := (letters.drop w.1).take (w.2 - w.1)
+  let ls ← (if wst = .minus then reverseComplement piece else pure piece)
+  pure ⟨w, wst, ls⟩
 
-def coding (h : Head) : R ChunkCDS := do
+/-- the harness's "other letter" at the position of `via:snv:<p>` -/
+def rot (c : Char) : Char :=
+  match c.toUpper with
+  | 'A' => 'C' | 'C' => 'G' | 'G' => 'T' | 'T' => 'A' | _ => 'A'
+
+/-- both twins of a line -/
+structure Built where
+  whole : List Node
+  nodes : List Node
+  /-- the chunk the chunk twin lives on (the variant's chunk for `via:snv`) -/
+  chunk : Chunk
+  /-- the description the ordinary constructor finally received on that chunk -/
+  desc : Desc
+
+def twins (h : Head) (m : Mods) : R Built := do
   let ch ← chunkOf h
-  codingTwin h.desc h.letters ch
+  match m.via with
+  | none => do
+      let (a, b) ← buildTwins h.desc h.letters ch
+      pure ⟨a, b, ch, h.desc⟩
+  | some v => do
+      let a ← buildNodes h.desc (.whole h.letters)
+      let other ← chunkAt h.letters (0, h.letters.length) (if h.win.wst = .minus then .plus else .minus)
+      let before ← (match v with
+        | .snv p =>
+            chunkAt (h.letters.take p ++ (match h.letters[p]? with | some c => [rot c] | none => []) ++ h.letters.drop (p + 1))
+              h.win.w h.win.wst
+        | _ => pure ch)
+      let (b, d', ch') ← viaNodes v h.desc h.letters ch before other
+      pure ⟨a, b, ch', d'⟩
+
+def coding (h : Head) (m : Mods) : R ChunkCDS := do
+  let t ← twins h m
+  match t.desc with
+  | .cds x => mkChunkCDS x t.chunk
+  | .tx tx => if tx.cds.isEmpty then throw .NoncodingTranscript else mkChunkCDS tx.cdsD t.chunk
+  | _ => throw .NoncodingTranscript
+
+/-! ### `same`: the alternatively constructed twin against the ordinary construction on the line's chunk -/
+
+def flagCh (b : Bool) : Char := if b then '1' else '0'
+
+def sameRows (chY chX : Chunk) : List Node → List Node → List String
+  | y :: ys, x :: xs =>
+    let row :=
+      if y.tag = 'X' ∨ x.tag = 'X' then (if y.tag = x.tag then "X 11111" else "X 00000")
+      else
+        let loc := x.start == y.start && x.«end» == y.«end» && showLocation x.chrom == showLocation y.chrom
+        let crl := showLocation x.location == showLocation y.location
+        let sx := subtree (x :: xs)
+        let sy := subtree (y :: ys)
+        let dic := sx.map (fun n => (n.tag, n.dictKey)) == sy.map (fun n => (n.tag, n.dictKey))
+        let gid := if y.tag = 'G' ∨ y.tag = 'Q' ∨ y.tag = 'A' then '-' else flagCh (subtreeKeys sx == subtreeKeys sy)
+        let sq := if y.tag = 'D' then '-' else flagCh (showCell (nodeSequence chX x) == showCell (nodeSequence chY y))
+        s!"{y.tag} " ++ String.ofList [flagCh loc, flagCh crl, flagCh dic, gid, sq]
+    row :: sameRows chY chX ys xs
+  | [], [] => []
+  | _, _ => ["X 00000"]
+
+def codingOf (d : Desc) (ch : Chunk) : Option (R ChunkCDS) :=
+  match d with
+  | .cds x => some (mkChunkCDS x ch)
+  | .tx t => if t.cds.isEmpty then none else some (mkChunkCDS t.cdsD ch)
+  | _ => none
+
+def sameTail (y : Built) (dX : Desc) (chX : Chunk) : R String :=
+  match codingOf dX chX, codingOf y.desc y.chunk with
+  | some rx, some ry => do
+      let kx ← rx
+      let ky ← ry
+      let fr := kx.base.frames == ky.base.frames
+      let cs := showCell (extractSequenceChunk kx) == showCell (extractSequenceChunk ky)
+      let pr := showCell (translateChunk kx) == showCell (translateChunk ky)
+      pure ("| " ++ String.ofList [flagCh fr, flagCh cs, flagCh pr])
+  | _, _ => pure "| ---"
 
 def ops : List (String × Op) := [
   ("loc", do
-      let h ← pHead
-      pure (showR (fun (x : List Node × List Node × Chunk) => " ".intercalate (x.2.1.map showNode)) (twins h))),
+      let h ← pHead; let m ← pMods
+      pure (showR (fun (x : Built) => " ".intercalate (x.nodes.map showNode)) (twins h m))),
   ("ident", do
-      let h ← pHead
-      pure (showR (fun (x : List Node × List Node × Chunk) =>
-        " ".intercalate (showFlag (dictEqual x.1 x.2.1) :: (guidFlags x.1 x.2.1).map showFlag)) (twins h))),
+      let h ← pHead; let m ← pMods
+      pure (showR (fun (x : Built) =>
+        " ".intercalate (showFlag (dictEqual x.whole x.nodes) :: (guidFlags x.whole x.nodes).map showFlag)) (twins h m))),
   ("seq", do
-      let h ← pHead
-      pure (showR (fun (x : List Node × List Node × Chunk) =>
-        " ".intercalate ((x.2.1.filter (fun n => n.tag ≠ 'D' ∧ n.tag ≠ 'X')).map
-          (fun n => showCell (nodeSequence x.2.2 n)))) (twins h))),
+      let h ← pHead; let m ← pMods
+      pure (showR (fun (x : Built) =>
+        " ".intercalate ((x.nodes.filter (fun n => n.tag ≠ 'D' ∧ n.tag ≠ 'X')).map
+          (fun n => showCell (nodeSequence x.chunk n)))) (twins h m))),
+  ("same", do
+      let h ← pHead; let m ← pMods
+      pure (showR id (do
+        let y ← twins h m
+        let chX ← chunkOf h
+        let xs ← buildNodes h.desc (.chunk chX)
+        let tail ← sameTail y h.desc chX
+        pure (" ".intercalate (sameRows y.chunk chX y.nodes xs ++ [tail]))))),
   ("ccodons", do
-      let h ← pHead
+      let h ← pHead; let m ← pMods
       pure (showR (fun (x : Nat × List Location) => s!"{x.1} {showLocs x.2}") (do
-        let k ← coding h
+        let k ← coding h m
         let n ← numCodonsChunk k
         let ls ← chromosomeCodonLocations k
         pure (n, ls)))),
   ("kcodons", do
-      let h ← pHead
-      pure (showR showLocs (do let k ← coding h; chunkRelativeCodonLocations k))),
+      let h ← pHead; let m ← pMods
+      pure (showR showLocs (do let k ← coding h m; chunkRelativeCodonLocations k))),
   ("kwcodons", do
-      let h ← pHead; let lo ← pInt; let hi ← pInt
-      pure (showR showLocs (do let k ← coding h; scanChunkRelativeCodonLocations k lo hi))),
+      let h ← pHead; let lo ← pInt; let hi ← pInt; let m ← pMods
+      pure (showR showLocs (do let k ← coding h m; scanChunkRelativeCodonLocations k lo hi))),
+  ("cwcodons", do
+      let h ← pHead; let lo ← pInt; let hi ← pInt; let m ← pMods
+      pure (showR showLocs (do let k ← coding h m; scanChromosomeCodonLocationsChunk k lo hi))),
   ("cdsseq", do
-      let h ← pHead
-      pure (showR showS (do let k ← coding h; extractSequenceChunk k))),
+      let h ← pHead; let m ← pMods
+      pure (showR showS (do
+        let k ← coding h m
+        if m.pre = some 'k' then extractSequenceChunkAfterCodons k else extractSequenceChunk k))),
   ("prot", do
-      let h ← pHead
-      pure (showR showS (do let k ← coding h; translateChunk k))),
+      let h ← pHead; let m ← pMods
+      pure (showR showS (do
+        let k ← coding h m
+        if m.pre = some 'k' then translateChunkAfterCodons k else translateChunk k))),
   ("kframes", do
-      let h ← pHead
-      pure (match (do let k ← coding h; chunkRelativeFrames k : R (List CDSFrame)) with
+      let h ← pHead; let m ← pMods
+      pure (match (do let k ← coding h m; chunkRelativeFrames k : R (List CDSFrame)) with
         | .ok fs => "ok" ++ String.join (fs.map fun f => " " ++ toString f.value)
         | .error e => "err " ++ showErr e))
 ]
